@@ -162,6 +162,8 @@ func regoC01(c *checkCtx) {
 	progs = append(progs, regosym.FamilyAtoms(thorough)...)
 	progs = append(progs, regosym.FamilyQuantified(thorough)...)
 	progs = append(progs, regosym.FamilyGrouped(thorough)...)
+	progs = append(progs, regosym.FamilyFloatBounds(thorough)...)
+	progs = append(progs, regosym.FamilyFloatSets(thorough)...)
 	if thorough {
 		progs = append(progs, regosym.FamilyBoundaries()...)
 	}
@@ -179,7 +181,7 @@ func regoC01(c *checkCtx) {
 		progs = append(progs, regosym.FamilyVariableIndex([]int{1, 11, 12, 22, 23, 24, 25, 26})...)
 	}
 	c.evidence["bounds_regosym"] = map[string]any{"nodes": n, "values_per_property": 2, "classes": "classes mentioned + 1", "literal_pool": "<= 4 literals derived from the program's constants + references to each node + one dangling reference",
-		"families": "atoms (every documented atomic constraint alone / under not / in or / in if-then), atoms below nested/atLeast/atMost in positive and negative positions, atoms on composite paths (sequence, alternative, inverse, @type), quantified (nested, atLeast/atMost 0..2 around small inner formulas, positive and negated), connective skeletons as YAML, variable-index (a nested-in-nested constraint whose outer quantified variable is the k-th of its validation)"}
+		"families": "atoms (every documented atomic constraint alone / under not / in or / in if-then), atoms below nested/atLeast/atMost in positive and negative positions, atoms on composite paths (sequence, alternative, inverse, @type), value ranges with non-integer bounds (data values on the bound and on both sides, nearer than six decimals), quantified (nested, atLeast/atMost 0..2 around small inner formulas, positive and negated), connective skeletons as YAML, variable-index (a nested-in-nested constraint whose outer quantified variable is the k-th of its validation)"}
 	outs, err := runPrograms(regoWork(c), progs, func(p regosym.Program) regosym.Scope { return regosym.ScopeFor(p, n, 2, 4) }, c.knownSignatures("C01.verdict-eq-reference"), 16)
 	if err != nil {
 		c.inconclusive("regosym: " + err.Error())
@@ -435,6 +437,7 @@ func regoC07(c *checkCtx) {
 	progs = append(progs, regosym.FamilySkeletons(2)...)
 	progs = append(progs, regosym.FamilyVariableIndex([]int{1, 2, 12, 22, 23, 24, 25, 26})...)
 	progs = append(progs, regosym.FamilyBoundaries()...)
+	progs = append(progs, regosym.FamilyFloatBounds(thorough)...)
 	for _, b := range regosym.BaseProfilesC15() {
 		if b.Name != "B4" { // B4 embeds Rego: outside C07
 			progs = append(progs, b)
@@ -473,6 +476,14 @@ func regoC07(c *checkCtx) {
 			texts = append(texts, strings.ReplaceAll(t, " / ", " /\\n\\t"))
 			descs = append(descs, descs[i]+" [paths written over several lines]")
 		}
+	}
+	// hand-written profiles for spellings the program generator does not produce
+	for _, raw := range [][2]string{
+		{"backslash and escaped slash in property names", "#%Validation Profile 1.0\nprofile: Raw1\nprefixes:\n  ex: http://example.org/\nviolation:\n  - v1\nvalidations:\n  v1:\n    message: \"m {{ex.foo\\\\qux}}\"\n    targetClass: ex.C\n    propertyConstraints:\n      ex.foo\\qux:\n        minCount: 1\n      ex.a\\/b / ex.c\\d^:\n        maxCount: 1\n        lessThanProperty: ex.e\\f\n"},
+		{"backslash in a class name and in a datatype", "#%Validation Profile 1.0\nprofile: Raw2\nprefixes:\n  ex: http://example.org/\nwarning:\n  - v1\nvalidations:\n  v1:\n    message: m\n    targetClass: ex.C\\D\n    propertyConstraints:\n      ex.p:\n        datatype: ex.t\\u\n        nested:\n          propertyConstraints:\n            ex.q\\r:\n              minCount: 1\n"},
+	} {
+		texts = append(texts, raw[1])
+		descs = append(descs, "hand-written: "+raw[0])
 	}
 	gens, err := drv.Generate(texts)
 	if err != nil {
